@@ -521,10 +521,15 @@ def write_evidence(prop, P, tier, seed, all_res, results, reported, n_known, wal
             "determinism_reruns": sum(1 for d in results if "rerun_same" in d),
             "determinism_mismatches": sum(1 for d in results if d.get("rerun_same") is False),
             "components_real": ["conductor (all of /repo/src/conductor used by the cli)",
-                                "CPython subprocess.Popen lifecycle", "sqlite3", "file system (tmpfs)",
-                                "tar", "kernel pipes"],
-            "components_stub": ["task processes (scripted)", "process table / waitpid / getpgid / killpg",
-                                "signal delivery", "clock", "git binary", "thread scheduler of the tee pool"],
+                                "COND files and included files (executed as monitored user code)",
+                                "CPython subprocess.Popen lifecycle", "sqlite3",
+                                "file system (tmpfs; injectable: mkdir / rmtree failure)", "tar", "kernel pipes"],
+            "components_stub": ["task processes (scripted; can be stopped / continued by job control)",
+                                "process table / waitpid (WUNTRACED) / getpgid / killpg",
+                                "signal delivery, dispositions, signal mask, SA_RESTART", "clock",
+                                "git binary (commit DAG, annotated tags; cross-validated against the real one)",
+                                "thread scheduler (tee pool and threads the program starts itself)",
+                                "reader of Conductor's own stdout (may go away or stall)"],
             "selftests": selftests or {},
             "known_findings_seen": n_known,
             "harness_errors": len(herrors),
